@@ -7,6 +7,8 @@ import CkbVerif.Lemmas.IndexerStep5
 import CkbVerif.Lemmas.IndexerRbS5
 import CkbVerif.Lemmas.IndexerRbPrune
 import CkbVerif.Lemmas.IndexerRbTip
+import CkbVerif.Lemmas.IndexerCells
+import CkbVerif.Lemmas.IndexerHistReplayT
 
 /-!
 # C18 — the indexer's answers equal filtering the chain's live cells and transactions
@@ -46,6 +48,12 @@ Proved here (all unbounded: any store, any block, any script):
   live set) whose lock script is the searched one, with their creation block number / tx index.
   PARTIAL only in scope: exact mode, before ordering / limit / cursor / the cell filters.
 * `answers_eq_filter_type_partial` — the same for live cells by TYPE script.
+* `get_cells_eq_filter_partial` — the model of `get_cells` (lock search, exact mode, ANY cell filter,
+  before limit) never panics on a chain store and returns exactly the cells of `replayLive blocks` with
+  that lock script passing the filter (as a set; order / limit / cursor by correspondence).
+* `tx_history_eq_replay` / `tx_history_type_eq_replay` — every TxLockScript / TxTypeScript row of the
+  store after ANY well-formed chain equals `replayTxLock blocks` / `replayTxType blocks`, pure folds
+  over the block list (the chain's transaction history filtered by script).
 * `history_step_lock_partial` / `history_step_type_partial` — the Tx*Script rows of the appended
   block's number are exactly the direct filter over that block (same-block spends included): one
   `output` row per output under its lock / type script, one `input` row per resolved input of a
@@ -351,6 +359,36 @@ example :
                  ⟨5, [⟨4, 0⟩], [⟨1, ⟨2, [5]⟩, some ⟨1, [1]⟩, [9]⟩]⟩]⟩ ] ⟨3, 0⟩ = none := by
   decide
 
+def exBlock0' : Block := ⟨0, 10, [⟨1, [⟨0, 4294967295⟩], [⟨1000, ⟨1, [1]⟩, none, []⟩]⟩]⟩
+def exBlock1' : Block :=
+  ⟨1, 11, [⟨2, [⟨0, 4294967295⟩], [⟨5000, ⟨1, [1]⟩, none, []⟩]⟩,
+           ⟨3, [⟨1, 0⟩], [⟨100, ⟨1, [1]⟩, none, [7]⟩, ⟨250, ⟨1, [1, 2]⟩, none, []⟩]⟩]⟩
+
+/-- **`get_cells` = filter over the replayed live set** (lock-script search, exact mode, ANY cell
+filter: script prefix / script_len_range / output_data prefix|exact|partial / data length / capacity /
+block range). On the store reached by any well-formed chain (same-block spends, automatic prune) the
+model of `IndexerHandle::get_cells` before `take(limit)` never hits `expect("stored OutPoint")`
+and its answers are EXACTLY the cells of `replayLive blocks` whose lock script is `q` and that pass
+the filter, each with its out-point, creation block number / tx index and key (= the cursor).
+PARTIAL in scope only: exact search mode; set of answers (their ORDER — key-byte order, asc/desc —
+limit and cursor paging are tested by correspondence); the type-script search is the analogous clone. -/
+theorem get_cells_eq_filter_partial (keep interval : Nat) (blocks : List Block)
+    (ok : ChainOK2 keep interval [] blocks) (q : Script) (f : Filter) :
+    ∃ l, cellRows (blocks.foldl (append keep interval) []) true q true f false
+        (scan (blocks.foldl (append keep interval) []) (cellPrefix true q)) = some l ∧
+      ∀ a : CellAns, a ∈ l ↔
+        ∃ c : Cell, replayLive blocks a.op = some c ∧ c.out.lock = q ∧ cellPasses f true false c = true ∧
+          a.cell = c ∧ a.key = (Key.cellLock q c.bn c.txIdx a.op.idx).bytes :=
+  getCells_exact_eq_replay keep interval blocks ok q f
+
+/-- the statement is not vacuous: a capacity-range query on a two-block chain returns one cell -/
+example :
+    (cellRows (appendCore (appendCore [] exBlock0') exBlock1') true ⟨1, [1]⟩ true
+        { capRange := some (0, 101) } false
+        (scan (appendCore (appendCore [] exBlock0') exBlock1') (cellPrefix true ⟨1, [1]⟩))).map
+      (fun l => l.map (fun a => (a.op, a.cell.out.cap))) = some [(⟨3, 0⟩, 100)] := by
+  decide
+
 /-! ## the transaction history written by one append -/
 
 /-- **tx lists by lock script = filter over the block** (same-block spends included: `Res` = the
@@ -382,6 +420,45 @@ example :
     WFAppend2 [] b0 ∧ (∀ (sc : Script) (txi io : Nat) (t : IoType), get [] (.txLock sc b0.number txi io t) = none) ∧
       get (appendCore [] b0) (.txLock ⟨1, [1]⟩ 0 0 0 .output) = some (.tx 1) :=
   ⟨wfAppend2_of_B _ _ (by decide), fun _ _ _ _ => rfl, by decide⟩
+
+/-! ## the transaction lists equal the replayed history -/
+
+/-- **tx lists by lock script = filter over the chain's transaction history.** After ANY chain of
+well-formed appends (`ChainOK3` = `ChainOK2` + the new block's number is new to the history index;
+same-block spends and the automatic prune included), every TxLockScript row of the store is exactly
+what `replayTxLock blocks` says — a pure fold over the block list: for every block one `output` row
+per output under its lock script and one `input` row per input of a non-cellbase transaction under
+the lock script of the cell it spends (resolved in the replayed live set), mapping to the tx id. -/
+theorem tx_history_eq_replay (keep interval : Nat) (blocks : List Block)
+    (ok : ChainOK3 keep interval [] blocks) (sc : Script) (bn i io : Nat) (t : IoType) :
+    get (blocks.foldl (append keep interval) []) (.txLock sc bn i io t) =
+      (replayTxLock blocks sc bn i io t).map Val.tx :=
+  txLock_eq_replay keep interval blocks ok sc bn i io t
+
+/-- the same for the transaction history by TYPE script -/
+theorem tx_history_type_eq_replay (keep interval : Nat) (blocks : List Block)
+    (ok : ChainOK3T keep interval [] blocks) (sc : Script) (bn i io : Nat) (t : IoType) :
+    get (blocks.foldl (append keep interval) []) (.txType sc bn i io t) =
+      (replayTxType blocks sc bn i io t).map Val.tx :=
+  txType_eq_replay keep interval blocks ok sc bn i io t
+
+theorem freshTxLock_of_B (s : Store) (b : Block) (h : freshB s b = true) (sc : Script) (txi io : Nat)
+    (t : IoType) : get s (.txLock sc b.number txi io t) = none := by
+  apply get_none_of
+  intro e he heq
+  have := List.all_eq_true.mp h e he
+  rw [heq] at this
+  simp at this
+
+/-- hypotheses satisfiable by a chain with a same-block spend, and the spec computes: tx 4 spends
+3.0 (lock `1.1`, created in the same block) as input 0 -/
+example :
+    ChainOK3 1 1 [] [exBlock0', ⟨1, 11, [⟨2, [⟨0, 4294967295⟩], []⟩,
+        ⟨3, [⟨1, 0⟩], [⟨100, ⟨1, [1]⟩, some ⟨2, [5]⟩, [7]⟩]⟩, ⟨4, [⟨3, 0⟩], []⟩]⟩] ∧
+    replayTxLock [exBlock0', ⟨1, 11, [⟨2, [⟨0, 4294967295⟩], []⟩,
+        ⟨3, [⟨1, 0⟩], [⟨100, ⟨1, [1]⟩, some ⟨2, [5]⟩, [7]⟩]⟩, ⟨4, [⟨3, 0⟩], []⟩]⟩] ⟨1, [1]⟩ 1 2 0 .input = some 4 :=
+  ⟨⟨wfAppend2_of_B _ _ (by decide), fun _ _ _ _ => rfl, wfAppend2_of_B _ _ (by decide),
+     freshTxLock_of_B _ _ (by decide), trivial⟩, by decide⟩
 
 /-! ## rollback ∘ append -/
 
